@@ -22,3 +22,5 @@ const (
 func verifSched(ev int, target *Thread) {}
 
 func verifClock() (uint64, bool) { return 0, false }
+
+func verifHash(Value) (uintptr, bool) { return 0, false }
